@@ -352,12 +352,12 @@ class RecursionDepth(Lane):
 
 def body(chk):
     quick = chk.tier == 'quick'
-    for n in ((1, 2, 3, 4, 5, 6) if quick else (1, 2, 3, 4, 5, 6, 7, 8)):
+    for n in ((1, 2, 3, 4, 5, 6) if quick else tier_param('C11A', (1, 2, 3, 4, 5, 6, 7, 8))):
         run_lane(chk, Arbitrary, (n,), bounds={'raw bytes': n}, selftest=(n == 4), need_regions=(('some',) if n >= 6 else ()))
     for si in range(len(SKELETONS)):
         run_lane(chk, Mutation, (si, 1), bounds={'skeleton': SKELETONS[si][0], 'bytes': len(ber.py_encode(SKELETONS[si][1])), 'symbolic positions': 'every single position, all 256 values'}, selftest=False)
     if not quick:
-        for si in range(len(SKELETONS)):
+        for si in tier_param('C11K2', list(range(len(SKELETONS)))):
             run_lane(chk, Mutation, (si, 2), bounds={'skeleton': SKELETONS[si][0], 'symbolic positions': 'every pair of positions, all 65536 values'}, selftest=False)
     lv = 600 if quick else 1500
     run_lane(chk, RecursionDepth, (lv, 2), bounds={'nested TLVs': lv, 'symbolic identifier octets': 2, 'safe depth': RecursionDepth.SAFE, 'native nesting replay': '400000 levels (< 1 MB)'}, selftest=False)
